@@ -7,6 +7,7 @@ import Driver.OpsBec2
 import Driver.OpsModes
 import Driver.OpsCfg
 import Driver.OpsBf2
+import Driver.OpsEc
 /-!
 Line-protocol driver of the executable model: one operation per input line,
 one canonical result line per operation.
@@ -43,7 +44,7 @@ def dispatch (line : String) : String :=
     | "crcstep" => opCrcStep args
     | "crcrow" => opCrcRow args
     | _ =>
-      match (cryptoOps ++ bf3Ops ++ textOps ++ bec2Ops ++ modeOps ++ cfgOps ++ bf2Ops).find? (·.1 == op) with
+      match (cryptoOps ++ bf3Ops ++ textOps ++ bec2Ops ++ modeOps ++ cfgOps ++ bf2Ops ++ ecOps).find? (·.1 == op) with
       | some (_, f) => f args
       | none => "bad-op"
 
